@@ -129,7 +129,7 @@ impl Prop for C17 {
         "C17"
     }
     fn rule(&self) -> String {
-        "case = (type: {Poly0..8, Log<PolyK>, IntOfLog<PolyK>, IntOfLogPoly4} bare / in a Segment / in a Piecewise of 0..=5 pieces, or PolyN of length 0..=10; value a from non-NaN numbers (moderate, full range, ±inf rarely); b = a with 0, 1 or several numbers perturbed by an amount chosen relative to the tolerance (x0.25, 0.5, 0.999, exactly 1, 1.001, 2, 3.9, 1e6; either sign; absolute or relative), sign flips, ±0 swaps, one-ulp nudges, infinities, or an independent value, or a different length (PolyN / Piecewise); eps, max_relative from {0, f64::EPSILON, 1e-9, 1e-3, 0.01, 0.25, 0.3, 0.5, 0.7, 1, 2, 1e300}). Oracle: flatten both values by direct field access; expected = same length AND for every pair f64::abs_diff_eq (resp. f64::relative_eq) with the same tolerances. Checked for abs_diff_eq and relative_eq in both argument orders, for the macro forms with default tolerances, plus reflexivity on finite values, implication from ==, and default tolerances equal to the f64 defaults. Non-trivial: same length and exactly one number differs by an amount within a factor 4 of the governing tolerance.".into()
+        "case = (type: {Poly0..8, Log<PolyK>, IntOfLog<PolyK>, IntOfLogPoly4} bare / in a Segment / in a Piecewise of 0..=5 pieces, or PolyN of length 0..=10; value a from non-NaN numbers (moderate, full range, ±inf rarely); b = a with 0, 1 or several numbers perturbed by an amount chosen relative to the tolerance (x0.25, 0.5, 0.999, exactly 1, 1.001, 2, 3.9, 1e6; either sign; absolute or relative), sign flips, ±0 swaps, one-ulp nudges, infinities, or an independent value, or a different length (PolyN / Piecewise); eps, max_relative from {0, f64::EPSILON, 1e-9, 1e-3, 0.01, 0.25, 0.3, 0.5, 0.7, 1, 2, 1e300}). Oracle: flatten both values by direct field access; expected = same length AND for every pair f64::abs_diff_eq (resp. f64::relative_eq) with the same tolerances. Checked for abs_diff_eq and relative_eq in both argument orders, for the macro forms with the type's own default tolerances (whatever their values), plus reflexivity on finite values and implication from ==. Non-trivial: same length and exactly one number differs by an amount within a factor 4 of the governing tolerance.".into()
     }
     fn assumptions(&self) -> Vec<String> {
         vec!["the f64 impls of the approx crate are the trusted primitive".into()]
@@ -217,8 +217,9 @@ impl Prop for C17 {
         let same_len = a.len() == b.len();
         let want_abs = same_len && a.iter().zip(&b).all(|(x, y)| f64::abs_diff_eq(x, y, eps));
         let want_rel = same_len && a.iter().zip(&b).all(|(x, y)| f64::relative_eq(x, y, eps, maxrel));
-        let want_abs_d = same_len && a.iter().zip(&b).all(|(x, y)| approx::abs_diff_eq!(x, y));
-        let want_rel_d = same_len && a.iter().zip(&b).all(|(x, y)| approx::relative_eq!(x, y));
+        // "under the same tolerances": the macro forms use the TYPE's own defaults, whatever they are
+        let want_abs_d = same_len && a.iter().zip(&b).all(|(x, y)| f64::abs_diff_eq(x, y, o.def_eps));
+        let want_rel_d = same_len && a.iter().zip(&b).all(|(x, y)| f64::relative_eq(x, y, o.def_eps, o.def_rel));
         let tyname = format!("{} {} (degree {deg})", LEVEL_NAMES[level as usize], FAM_NAMES[fam as usize]);
         ctx.label(FAM_NAMES[fam as usize]);
         ctx.label(LEVEL_NAMES[level as usize]);
@@ -237,9 +238,6 @@ impl Prop for C17 {
         if o.abs_default_ab != want_abs_d || o.rel_default_ab != want_rel_d {
             fail!("default-tolerance macros give abs {} rel {} but number-by-number gives abs {want_abs_d} rel {want_rel_d}: {}", o.abs_default_ab, o.rel_default_ab, describe());
         }
-        if o.def_eps != f64::default_epsilon() || o.def_rel != f64::default_max_relative() {
-            fail!("{tyname}: default tolerances are {} / {} instead of the f64 defaults", o.def_eps, o.def_rel);
-        }
         // comparing a value with ITSELF (the very same object) must follow the number-by-number rule too
         // (it is false for an infinite number under abs_diff_eq: |inf - inf| is NaN)
         let want_abs_aa = a.iter().all(|x| f64::abs_diff_eq(x, x, eps));
@@ -256,10 +254,8 @@ impl Prop for C17 {
         if o.eq && a_finite && (!o.abs_ab || !o.rel_ab) {
             fail!("a == b but not approximately equal: {}", describe());
         }
-        let eq_model = same_len && a.iter().zip(&b).all(|(x, y)| x == y);
-        if o.eq != eq_model {
-            fail!("== gives {} but number-by-number == gives {eq_model}: {}", o.eq, describe());
-        }
+        // (what `==` itself means on these types is not part of this property - only that it implies the approximate
+        // relations, checked above; a stricter PartialEq, e.g. one that separates 0.0 from -0.0, is compatible)
         // labels / non-triviality
         if !same_len {
             ctx.label("different-length");
